@@ -35,12 +35,8 @@ def positional(pat, env):
                 env.roles[p["name"]] = ("pb", i)
 
 
-def run(ctx):
-    core = ctx.core
-    ctx.not_decided += ["that a given closure returns the same value everywhere (the chain deliberately falls back to the caller's environment for names unbound at definition, which the statement excludes by its premise)"]
-
-    # ---------------- R1 free-variable analysis <=> evaluator reads
-    ctx.rule("C04.R1", "the AST positions at which the evaluator reads the environment by a name taken from the AST are exactly the positions from which collect_free_variables collects a name; it recurses into every Expr / RecordKey variant that has an expression child; binder arms extend a copy of the bound set, never the caller's", floor=8)
+def free_variable_rule(ctx, rid, core):
+    """the capture analysis against the evaluator's reads, recursion coverage, binder discipline (shared with C05: what is not captured cannot be inlined into the emitted source)"""
     hev = core.hir_fn(EVAL)
     env0 = S.Env()
     reads = set()
@@ -59,7 +55,7 @@ def run(ctx):
     for n, e, g in scope.sites(hcf["body"], lambda n: H.kind(n) == "MethodCall" and n["name"] == "push" and H.path_local(n["recv"]) == vars_p, S.Env()):
         collects.add(innermost_ast_arm(g))
     for pos in sorted(reads | collects, key=str):
-        ctx.inst("C04.R1", "read-position=%s" % pos, pos in reads and pos in collects,
+        ctx.inst(rid, "read-position=%s" % pos, pos in reads and pos in collects,
                  "evaluator reads the environment by an AST name here: %s; collect_free_variables collects here: %s" % (pos in reads, pos in collects), H.loc(hev["body"]))
     # recursion coverage
     m = [x_ for x_ in [H.main_match(hcf["body"], "ast::Expr")] if x_ is not None]
@@ -75,7 +71,7 @@ def run(ctx):
         if not has_child:
             continue
         ok = v["name"] in handled or v["name"] == "Output"
-        ctx.inst("C04.R1", "recurses-into=Expr::%s" % v["name"], ok,
+        ctx.inst(rid, "recurses-into=Expr::%s" % v["name"], ok,
                  "variant has an expression child; explicit arm: %s%s" % (v["name"] in handled, " (output declarations cannot occur inside a function body: grammar `statement` only)" if v["name"] == "Output" else ""), H.loc(hcf["body"]))
     # ... and into every expression-typed FIELD of the variant: a merged arm `Access { expr, .. } | DotAccess { expr, .. }` skips `index`
     vfields = {v["name"]: [f["name"] for f in v["fields"] if ("ast::Expr" in f["ty"] or "ast::RecordEntry" in f["ty"])] for v in expr_t["variants"]}
@@ -95,7 +91,7 @@ def run(ctx):
                 bound = {str(i_): (H.pat_binds(p_) or [None])[0] for i_, p_ in enumerate(q["pats"])}
             for fld in vfields.get(vname, []):
                 b_ = bound.get(fld)
-                ctx.inst("C04.R1", "recurses-into=Expr::%s.%s" % (vname, fld), b_ is not None and b_ in used,
+                ctx.inst(rid, "recurses-into=Expr::%s.%s" % (vname, fld), b_ is not None and b_ in used,
                          "expression child `%s` of %s is %s" % (fld, vname, "bound and visited" if (b_ is not None and b_ in used) else "not visited by this arm (its free variables are never captured)"), H.loc(a["body"]))
     mk = H.matches_on(hcf["body"], "ast::RecordKey")
     handled_k = set()
@@ -107,7 +103,7 @@ def run(ctx):
     for v in rk["variants"]:
         needs = v["name"] in ("Dynamic", "Spread", "Shorthand")
         if needs:
-            ctx.inst("C04.R1", "recurses-into=RecordKey::%s" % v["name"], v["name"] in handled_k, "explicit arm for the record key kind: %s" % (v["name"] in handled_k), H.loc(hcf["body"]))
+            ctx.inst(rid, "recurses-into=RecordKey::%s" % v["name"], v["name"] in handled_k, "explicit arm for the record key kind: %s" % (v["name"] in handled_k), H.loc(hcf["body"]))
     # binder arms: `.insert` into a set that is a clone of bound, never `bound` itself
     k = 0
     for n, e, g in scope.sites(hcf["body"], lambda n: H.kind(n) == "MethodCall" and n["name"] in ("insert", "extend") and "HashSet" in n.get("recv_ty", ""), S.Env()):
@@ -118,14 +114,14 @@ def run(ctx):
         if ok and tgt in e.inline:
             init = S.norm(e.inline[tgt][0], e.inline[tgt][1])
             ok = init == ("var", bound_p)  # clone() is stripped by the normaliser: `let mut x = bound.clone()`
-        ctx.inst("C04.R1", "binder[%s]#%d" % (lab, k), ok, "names are added to %r (%s): a scope-local copy of the bound set" % (tgt, S.show(init) if init else "the caller's set"), H.loc(n))
+        ctx.inst(rid, "binder[%s]#%d" % (lab, k), ok, "names are added to %r (%s): a scope-local copy of the bound set" % (tgt, S.show(init) if init else "the caller's set"), H.loc(n))
         k += 1
     # recursive calls inside binder arms pass the local copy
     for n, e, g in scope.sites(hcf["body"], lambda n: H.kind(n) == "Call" and n.get("def") == CFV, S.Env()):
         lab = innermost_ast_arm(g)
         if lab in ("Expr::Lambda", "Expr::DoBlock"):
             a = H.path_local(n["args"][2])
-            ctx.inst("C04.R1", "binder[%s]#recursion-uses-copy@%s" % (lab, a), a != bound_p, "recursive call in the binder arm passes %r" % a, H.loc(n))
+            ctx.inst(rid, "binder[%s]#recursion-uses-copy@%s" % (lab, a), a != bound_p, "recursive call in the binder arm passes %r" % a, H.loc(n))
 
     # binder order in do-blocks: `x = x + 1` reads the OUTER x, so the value is scanned before the name becomes bound
     for a in m[0]["arms"]:
@@ -148,13 +144,23 @@ def run(ctx):
             ins = [i for i, x in enumerate(seq) if H.kind(x) == "MethodCall" and x["name"] == "insert" and "HashSet" in x.get("recv_ty", "") and any(H.path_local(y) == fb.get("ident") for y in H.walk(x["args"][0]))]
             rec = [i for i, x in enumerate(seq) if H.kind(x) == "Call" and x.get("def") == CFV and any(H.path_local(y) == fb.get("value") for y in H.walk(x["args"][0]))]
             ok = bool(ins) and bool(rec) and max(rec) < min(ins)
-            ctx.inst("C04.R1", "binder[Expr::DoBlock]#value-before-name[%d]" % k, ok,
+            ctx.inst(rid, "binder[Expr::DoBlock]#value-before-name[%d]" % k, ok,
                      "in a do-block assignment the right-hand side is scanned for free variables (%d call(s)) before the assigned name joins the bound set (%d insert(s)): %s" % (len(rec), len(ins), ok), H.loc(body))
             k += 1
         if k == 0:
-            ctx.inst("C04.R1", "binder[Expr::DoBlock]#value-before-name", None, "no Assignment pattern found in the DoBlock arm", H.loc(a["body"]))
+            ctx.inst(rid, "binder[Expr::DoBlock]#value-before-name", None, "no Assignment pattern found in the DoBlock arm", H.loc(a["body"]))
 
-    special_names(ctx, "C04.R1", core)
+    special_names(ctx, rid, core)
+
+
+def run(ctx):
+    core = ctx.core
+    ctx.not_decided += ["that a given closure returns the same value everywhere (the chain deliberately falls back to the caller's environment for names unbound at definition, which the statement excludes by its premise)"]
+
+    # ---------------- R1 free-variable analysis <=> evaluator reads
+    ctx.rule("C04.R1", "the AST positions at which the evaluator reads the environment by a name taken from the AST are exactly the positions from which collect_free_variables collects a name; it recurses into every Expr / RecordKey variant that has an expression child; binder arms extend a copy of the bound set, never the caller's", floor=8)
+    free_variable_rule(ctx, "C04.R1", core)
+    hev = core.hir_fn(EVAL)
 
     # ---------------- R4 a function's self name is fixed
     from rules import c02
